@@ -311,6 +311,7 @@ func setVals(res jsonapi.Resource) map[string]string {
 
 func (m c01) Directed(c *Ctx) {
 	m.sameNamedStructs(c)
+	tagOptCheck(c, "C01")
 	c.Name = "pool-sweep"
 	for _, wrapped := range []bool{false, true} {
 		for _, k := range allKinds {
